@@ -198,7 +198,16 @@ func c16Failing(r *ev.Rand, st *c16State, seq int) hx.Op {
 func c16Capacity(r *ev.Rand) (h []hx.Op, f map[int][]hx.Op) {
 	f = map[int][]hx.Op{}
 	small := func() *hx.Val { v := hx.GenNumeric(r, "[]i32", 2, 2); return &v }
-	switch r.Intn(3) {
+	switch r.Intn(4) {
+	case 3: // an object header filled to within a few bytes of its 255-byte capacity: calls that
+		// need one more message in it (the reference count of a first hard link) must fail cleanly
+		v := hx.GenNumeric(r, "[]f64", 4, 2)
+		h = append(h, hx.Op{K: "create_ds", Path: "/full", DT: "f64", Dims: []uint64{4}, Data: &v})
+		sv := hx.Val{Kind: "str", S: []string{strings.Repeat("s", r.Range(138, 158))}}
+		h = append(h, hx.Op{K: "attr", Path: "/full", Name: "pad", Data: &sv})
+		h = append(h, hx.Op{K: "group", Path: "/links"})
+		f[len(h)] = append(f[len(h)], hx.Op{K: "hardlink", Path: "/alias_of_full", Target: "/full", Tag: "header-capacity-refcount"},
+			hx.Op{K: "hardlink", Path: "/links/alias_of_full", Target: "/full", Tag: "header-capacity-refcount"})
 	case 0: // entries of one group up to and beyond its capacity
 		h = append(h, hx.Op{K: "group", Path: "/cap"})
 		n := r.Range(28, 34)
@@ -503,7 +512,7 @@ func c16Spec(path string) string {
 var C16 = &ev.Property{
 	ID:    "C16",
 	Level: "exploration",
-	Rule: "twin runs: run A executes a history H (random histories of dataset/group/attribute/link/resize/write calls, or histories that fill a group to its 32-entry / 256-byte name-heap capacity or a group header to its 255 bytes) with 1-18 calls chosen to fail inserted at 1-6 random points from a catalogue of 40 kinds (empty/relative/existing names, missing parents, zero extents, chunk rank/size/zero, max-dims without chunks or below the extent, unknown datatype, string/array/enum options missing, Write with wrong length or Go type, Resize with wrong rank or on a fixed dataset, unsupported/empty attribute values, 64 KiB attribute names, missing attributes, duplicate or dangling hard/soft/external links, dense groups with dangling links, calls beyond a capacity limit) and, in half of the cases, calls on the closed writer and its handles plus two further Close calls; run B executes H alone (plus inserted calls that succeeded in A). Violations: any panic; an error from a repeated Close; a call on a closed writer/handle that reports success; a call of H whose outcome differs between A and B; any difference between the dumps of A and B through the library reader (all metadata, values, attributes) or through the independent decoder (tree, reference counts, raw data, attribute bytes). " +
+	Rule: "twin runs: run A executes a history H (random histories of dataset/group/attribute/link/resize/write calls, or histories that fill a group to its 32-entry / 256-byte name-heap capacity or a group header to its 255 bytes, or that leave a dataset header a few bytes short of its capacity before a first hard link needs a reference-count message in it) with 1-18 calls chosen to fail inserted at 1-6 random points from a catalogue of 40 kinds (empty/relative/existing names, missing parents, zero extents, chunk rank/size/zero, max-dims without chunks or below the extent, unknown datatype, string/array/enum options missing, Write with wrong length or Go type, Resize with wrong rank or on a fixed dataset, unsupported/empty attribute values, 64 KiB attribute names, missing attributes, duplicate or dangling hard/soft/external links, dense groups with dangling links, calls beyond a capacity limit) and, in half of the cases, calls on the closed writer and its handles plus two further Close calls; run B executes H alone (plus inserted calls that succeeded in A). Violations: any panic; an error from a repeated Close; a call on a closed writer/handle that reports success; a call of H whose outcome differs between A and B; any difference between the dumps of A and B through the library reader (all metadata, values, attributes) or through the independent decoder (tree, reference counts, raw data, attribute bytes). " +
 		"non-trivial: at least one inserted call failed, or the closed-writer tail ran; distinct = (superblock, variant, kinds of failed calls, tail, history length).",
 	Assumptions: []string{"orphaned allocations are not logical content: byte identity between the twins is not required"},
 	Cases: func(tier string) int {
